@@ -295,7 +295,9 @@ class ExcelCompiler:
 
         # populate the ranges and dependant graph
         for address, lineno in range_todos:
-            excel_compiler._make_cells(address)
+            # an unbounded range will already have built the range it refers to
+            if address.address not in excel_compiler.cell_map:
+                excel_compiler._make_cells(address)
             add_line_numbers(address.address, lineno)
 
         excel_compiler._process_gen_graph()
